@@ -29,7 +29,7 @@ def load_known():
     if os.path.exists(p):
         for l in open(p):
             l = l.strip()
-            if l and not l.startswith("#"):
+            if l.startswith("{"):
                 out.append(json.loads(l))
     return out
 
